@@ -114,11 +114,29 @@ fn lenient_case(em: &mut Emitter, mode: u8, outer_indef: bool, wrap2: u8, member
                     (3, true) => seq.take_constructed_if(tag, |k| k.take_null()),
                     (4, _) => seq.take_value_if(tag, |ct| { skip_content(ct)?; Ok(()) }).and_then(|_| Err(seq.content_err("lenient"))),  // succeeds; the caller fails afterwards
                     (5, _) => seq.take_value_if(tag, |_| Ok(())),                                                       // returns success without consuming
+                    // a MANDATORY read under a foreign expectation: absence becomes an error, and nothing is consumed
+                    (10, _) => seq.take_value_if(Tag::private(0x1f_fffe), |_| Ok(())),
+                    (11, _) => seq.take_primitive_if(Tag::private(0x1f_fffe), |_| Ok(())),
+                    (12, _) => seq.take_constructed_if(Tag::private(0x1f_fffe), |_| Ok(())),
+                    (13, _) => bcder::OctetString::take_from(seq).map(|_| ()),
+                    (14, _) => bcder::BitString::take_from(seq).map(|_| ()),
+                    (15, _) => seq.take_null(),
+                    (16, _) => seq.take_u8().map(|_| ()),
+                    (17, _) => seq.take_bool().map(|_| ()),
+                    (18, _) => bcder::Oid::take_from(seq).map(|_| ()),
+                    (19, _) => seq.take_sequence(|_| Ok(())),
+                    (20, _) => bcder::Utf8String::take_from(seq).map(|_| ()),
                     (6, _) => seq.skip_one().map(|_| ()),                                                               // skipping, capturing, string decoding of the member
                     (7, _) => seq.capture_one().map(|_| ()),
                     (8, _) => bcder::OctetString::take_from(seq).map(|_| ()),
                     _ => seq.skip_all(),
                 };
+                if how >= 10 {
+                    // the value is still there: read it and all that follows under no expectation
+                    if failed.is_ok() { return Err(seq.content_err("a mandatory read under a foreign expectation succeeded")) }
+                    while seq.take_opt_value(|_, ct| skip_content(ct))?.is_some() { }
+                    return Ok(())
+                }
                 let _ = failed;
                 for _ in 0..more { if seq.take_opt_value(|_, ct| skip_content(ct)).is_err() { break } }
                 Ok(())
@@ -145,6 +163,9 @@ fn lenient_case(em: &mut Emitter, mode: u8, outer_indef: bool, wrap2: u8, member
         }));
         let orc = match r {
             None => Oracle::Fail("panic".into()),
+            // after a mandatory read that found another value than it expected, everything must still be in place
+            Some(Ok((true, true, true))) if how >= 10 => Oracle::Pass,
+            Some(_) if how >= 10 => Oracle::Fail("a-failed-mandatory-read-under-a-foreign-expectation-consumed-something".into()),
             Some(Err(_)) => Oracle::Pass,                          // the enclosing read (or an outer one) failed
             Some(Ok((false, _, _))) => Oracle::Pass,
             Some(Ok((true, true, true))) => Oracle::Pass,          // everything was consumed after all: what follows is what follows
@@ -166,6 +187,14 @@ pub fn run(em: &mut Emitter, rng: &mut Rng, thorough: bool) {
         let wrap2 = match mode { 1 => *rng.pick(&[0u8, 2]), 2 => rng.below(2) as u8, _ => rng.below(3) as u8 };
         let j = rng.below(members.len() as u64) as usize;
         for how in 0..6u8 { lenient_case(em, mode, outer_indef, wrap2, &members, j, how, rng.below(3) as usize, 0); }
+        let (jc, jn) = match &members[j] { Node::Prim { cls, num, .. } | Node::Cons { cls, num, .. } => (*cls, *num) };
+        for how in 10..21u8 {
+            // the typed readers are foreign only where member j does not carry their tag
+            let own: Option<u32> = match how { 13 => Some(4), 14 => Some(3), 15 => Some(5), 16 => Some(2), 17 => Some(1), 18 => Some(6), 19 => Some(16), 20 => Some(12), _ => None };
+            if jc == 0 && own == Some(jn) { continue }
+            if jc == 3 && jn == 0x1f_fffe { continue }
+            lenient_case(em, mode, outer_indef, wrap2, &members, j, how, 0, 0);
+        }
         if mode != 1 { let bad = 1 + rng.below(4) as u8; for how in 0..10u8 { lenient_case(em, mode, outer_indef, wrap2, &members, j, how, rng.below(3) as usize, bad); } }
     }
     let ctxs = [Ctx::Top, Ctx::Definite, Ctx::Indefinite];
